@@ -128,7 +128,8 @@ func (mavls *Store) MemSet(datas *types.StoreSet, sync bool) ([]byte, error) {
 	}()
 	if len(datas.KV) == 0 {
 		mlog.Info("store mavl memset,use preStateHash as stateHash for kvset is null")
-		mavls.trees.Store(string(datas.StateHash), nil)
+		// the parent state may itself still be pending: keep its tree, or its Commit would write nothing
+		mavls.trees.LoadOrStore(string(datas.StateHash), nil)
 		return datas.StateHash, nil
 	}
 	tree := mavl.NewTree(mavls.GetDB(), sync, mavls.treeCfg)
